@@ -120,6 +120,19 @@ theorem intermediate_capacity_sound (ops : Ops K) (hc : CapClosed ops) (cap : In
     SetEq ((surv ops (capFilter cap) tables).filter (fitsC cap)) (validCombos ops cap tables) :=
   surv_capFilter ops hc cap tables
 
+/-- **`untracked_sound`.** Memories whose reservation columns can never decide the capacity test on a full
+combination (`get_memories_to_track`: summed per-Einsum maxima ≤ capacity, or never reserved across a
+fused loop) can be dropped from all tables before joining: the same combinations are valid, with the
+same classes and objectives — hence the same objective front. (`π` deletes the columns; `ResHom` says the
+reservation algebra treats memories independently.) -/
+theorem untracked_sound {ops ops' : Ops K} {π : Vec → Vec} (h : ResHom ops ops' π) (cap : Int)
+    (tables : List (List (Cand K)))
+    (hnb : ∀ s ∈ allCombos ops tables, fits cap (π s.res) = fits cap s.res) :
+    front ((validCombos ops' cap (tables.map (List.map (mapRes π)))).map (·.obj)) =
+      front ((validCombos ops cap tables).map (·.obj)) := by
+  rw [AFV.Search.untracked_sound h cap tables hnb, List.map_map]
+  rfl
+
 /-- **`staged_eq_joinExact_partial`.** Under `StagedHyp`, with every relaxed capacity at least the true
 one: whenever the returned round did not retain reservation columns, the staged join returns exactly
 the front of one exact, unaccelerated join. -/
@@ -242,5 +255,15 @@ example : lookKeep mayParity [[⟨2, [1], [1]⟩], [⟨3, [1], [1]⟩, ⟨5, [1]
 example : surv opsParity ((capFilter 10).withLook mayParity)
       [[⟨0, [1], [1]⟩, ⟨1, [2], [1]⟩], [⟨2, [1], [1]⟩, ⟨3, [1], [2]⟩], [⟨5, [1], [1]⟩]] =
     [⟨5, [4], [4]⟩] := by decide
+
+-- `untracked_sound`: deleting all but the first reservation column commutes with the example algebra,
+-- and on this instance the deleted column never decides the capacity test
+example : ResHom opsChain opsChain (List.take 1) :=
+  ⟨fun _ _ => rfl, fun _ _ r s => by
+    cases r with
+    | nil => cases s <;> simp [opsChain, radd]
+    | cons x xs => cases s <;> simp [opsChain, radd]⟩
+example : ∀ s ∈ allCombos opsChain [[(⟨0, [6], [5, 2]⟩ : Cand Nat), ⟨0, [7], [9, 3]⟩], [⟨1, [4], [4, 1]⟩]],
+    fits 10 ((List.take 1) s.res) = fits 10 s.res := by decide
 
 end AFV.C14
